@@ -167,3 +167,51 @@ func aboutCalleeEvents(e Expr, ct *FnContract) bool {
 	}
 	return false
 }
+
+// ---- type-based separation of call results from the function's own local objects -------------------------------
+
+type localObj struct {
+	ref string
+	ty  types.Type
+}
+
+// containsType: does an object of type t contain (at any depth, by value) a part of type target?
+func containsType(t, target types.Type, depth int) bool {
+	if types.Identical(t, target) {
+		return true
+	}
+	if depth > 6 {
+		return true // give up: assume it might
+	}
+	switch u := types.Unalias(t).Underlying().(type) {
+	case *types.Struct:
+		for i := 0; i < u.NumFields(); i++ {
+			if containsType(u.Field(i).Type(), target, depth+1) {
+				return true
+			}
+		}
+	case *types.Array:
+		return containsType(u.Elem(), target, depth+1)
+	case *types.Interface:
+		return false
+	}
+	return false
+}
+
+// typeSeparation: a pointer to T that a callee returns cannot point into a local object of this function whose type
+// has no part of type T (Go is type safe; the module does not use unsafe). Without this the solver may let, say, a
+// *bep44.Item returned by a store alias the krpc.Return the function is filling in.
+func (x *Exec) typeSeparation(t types.Type, v string) {
+	pt, ok := types.Unalias(t).Underlying().(*types.Pointer)
+	if !ok {
+		return
+	}
+	if _, isStruct := pt.Elem().Underlying().(*types.Struct); !isStruct {
+		return
+	}
+	for _, lo := range x.localObjs {
+		if !containsType(lo.ty, pt.Elem(), 0) {
+			x.c.assume(or(eq(v, "nil"), not(eq(sx("ref", v), lo.ref))))
+		}
+	}
+}
